@@ -57,6 +57,11 @@ pub fn event(kind: &str, detail: &str) {
     }
 }
 
+/// Whether an observer is installed (lets call sites skip building the event detail).
+pub fn observed() -> bool {
+    OBSERVER.read().unwrap().is_some()
+}
+
 /// Report a persistence step on `path`.
 pub fn persist(kind: &str, path: impl AsRef<std::path::Path>) {
     let obs = OBSERVER.read().unwrap().clone();
